@@ -14,6 +14,7 @@ import (
 	"github.com/nspcc-dev/bbolt"
 	iec "github.com/nspcc-dev/neofs-node/internal/ec"
 	ierrors "github.com/nspcc-dev/neofs-node/internal/errors"
+	"github.com/nspcc-dev/neofs-node/pkg/local_object_storage/blobstor/fstree"
 	meta "github.com/nspcc-dev/neofs-node/pkg/local_object_storage/metabase"
 	"github.com/nspcc-dev/neofs-node/verifharness/ev"
 	"github.com/nspcc-dev/neofs-node/verifharness/stor"
@@ -433,7 +434,18 @@ func checkSet(t *rapid.T, rec *ev.Recorder, s Set, db, db2 *meta.DB, ep *stor.Ep
 			t.Fatalf("observe after incremental puts %v: %v", p, err)
 		}
 		normalise(s, f, addrs, v)
-		if !slices.Equal(base, v) {
+		// Status and lock state are compared; whether the address is in the garbage
+		// list is not: a part tied to its parent only by the first/split ID that is
+		// put AFTER the parent's tombstone is accepted and inherits "removed" but
+		// gets no garbage mark (incremental puts are order-dependent there, which
+		// is C44's subject); reclaimability after a rebuild is checked by TestC18ShardGC.
+		same := true
+		for i := range addrs {
+			if base[i].Class != v[i].Class || base[i].Locked != v[i].Locked {
+				same = false
+			}
+		}
+		if !same {
 			var diff []string
 			for i := range addrs {
 				if base[i] != v[i] {
@@ -493,5 +505,218 @@ func TestC18Resync(t *testing.T) {
 		defer db.Close()
 		defer db2.Close()
 		checkSet(t, rec, s, db, db2, ep, perms)
+	})
+}
+
+// ---- shard level: after the rebuild GC reclaims the payload of removed objects ----
+
+// noCombined: the sets reuse object IDs across the two containers; FSTree
+// "combined" files index members by object ID only (HARNESS.md pitfall).
+var noCombined = []fstree.Option{fstree.WithCombinedCountLimit(1)}
+
+// mustReclaim lists the stored objects whose payload GC has to delete after the
+// rebuild: objects targeted by a stored live tombstone directly, and parts that
+// carry the header of a tombstoned parent. Families with a lock are skipped.
+func mustReclaim(s Set, f facts) []Member {
+	var res []Member
+	for _, m := range s.Members {
+		if m.Role == rTomb || m.Role == rLock || f.famL[m.Fam] {
+			continue
+		}
+		fam := s.Families[m.Fam]
+		root := uni.Addr(fam.Cnr, fam.Root)
+		if f.tombOn[m.addr()] || (m.Spec.Parent == fam.Root && fam.Form != "plain" && f.tombOn[root]) {
+			res = append(res, m)
+		}
+	}
+	return res
+}
+
+func TestC18ShardGC(t *testing.T) {
+	rec := ev.New("C18", "shardgc")
+	defer rec.Flush()
+	rapid.Check(t, func(t *rapid.T) {
+		s := genSet(t, genCfg{minN: 2, maxN: 7, cnrs: 2,
+			noTombOnParent: ev.IsOpen("C18", fpTombParent), noExpiredParent: ev.IsOpen("C18", fpExpParent)})
+		rec.Excluded(int64(s.excluded))
+		f := s.facts()
+		want := mustReclaim(s, f)
+		n := len(s.Members)
+		rec.Case(len(want) > 0, s.String(), append(labelsOf(s), fmt.Sprintf("must-reclaim-%d", min(len(want), 3)))...)
+		if len(want) == 0 || n < 2 {
+			return // nothing this variant can observe
+		}
+		if rec.WantSample() {
+			rec.Sample(s)
+		}
+		perms := sampledPerms(n, 4, rapid.Uint64().Draw(t, "perm-seed"))
+		for _, p := range perms {
+			gcAfterRebuild(t, rec, s, f, want, p)
+		}
+	})
+}
+
+func gcAfterRebuild(t *rapid.T, rec *ev.Recorder, s Set, f facts, want []Member, p []int) {
+	dir, err := os.MkdirTemp("", "c18s")
+	if err != nil {
+		ev.Inconclusive("mkdtemp: %v", err)
+	}
+	defer os.RemoveAll(dir)
+	ep := &stor.Epoch{}
+
+	// 1. the blob storage of the shard holds the objects
+	fst, err := stor.OpenFSTree(stor.BlobDir(dir), noCombined...)
+	if err != nil {
+		t.Fatalf("setup: open fstree: %v", err)
+	}
+	var order []blob
+	for _, k := range p {
+		m := s.Members[k]
+		if err := fst.Put(m.addr(), m.build().Marshal()); err != nil {
+			fst.Close()
+			t.Fatalf("setup: fstree put: %v", err)
+		}
+		order = append(order, blob{addr: m.addr()})
+	}
+	// 2. offline rebuild of the shard's metabase from it (what `neofs-lancet meta resync` does), blobs read in order p
+	db, err := stor.OpenMeta(stor.MetaPath(dir), ep, fastBolt())
+	if err != nil {
+		fst.Close()
+		t.Fatalf("setup: open metabase: %v", err)
+	}
+	ep.Set(uint64(s.Er))
+	err = db.ResyncFromBlobstor(&orderedStore{blobs: order, inner: fst, id: fst.ShardID()}, strictErr)
+	db.Close()
+	fst.Close()
+	if err != nil {
+		t.Fatalf("resync failed in blob order %v: %v\n%s", p, err, s.Short())
+	}
+	// 3. the shard starts on these directories; epoch Eq arrives; GC runs
+	ep.Set(uint64(s.Eq))
+	sh, err := stor.OpenShard(stor.ShardCfg{Dir: dir, Epoch: ep, FSTOpts: noCombined, MetaOpts: []meta.Option{fastBolt()}})
+	if err != nil {
+		t.Fatalf("setup: open shard after rebuild: %v\n%s", err, s.Short())
+	}
+	sh.VerifNewEpoch(uint64(s.Eq))
+	for i := 0; i < 3; i++ {
+		sh.VerifGCPass()
+	}
+	if err := sh.Close(); err != nil {
+		t.Fatalf("setup: close shard: %v", err)
+	}
+	rec.Label("gc-runs")
+	// 4. payload of every removed object is gone from the blob storage
+	fst, err = stor.OpenFSTree(stor.BlobDir(dir), noCombined...)
+	if err != nil {
+		t.Fatalf("setup: reopen fstree: %v", err)
+	}
+	defer fst.Close()
+	tp := s.tombOnParentFamilies()
+	for _, m := range want {
+		ok, err := fst.Exists(m.addr())
+		if err != nil {
+			t.Fatalf("setup: fstree exists: %v", err)
+		}
+		if ok {
+			if tp[m.Fam] && rec.Known(fpTombParent) {
+				rec.Label("known:" + fpTombParent)
+				continue
+			}
+			t.Fatalf("%s (%s) is removed by a stored tombstone but its payload is still in the blob storage after rebuild (blob order %v) + 3 GC passes at epoch %d\n%s",
+				fmtAddr(m.addr()), m.Role, p, s.Eq, s.Short())
+		}
+	}
+}
+
+// ---- batch boundary (thorough tier): related objects fall into different PutBatch transactions ----
+
+var fillerBlobs []blob
+
+// fillers returns n regular objects of container 2 with synthetic IDs; none of
+// them is related to anything.
+func fillers(n int) []blob {
+	for i := len(fillerBlobs); i < n; i++ {
+		o := uni.Build(blank(uni.Regular, 2, 0))
+		var id oid.ID
+		id[0], id[1], id[2], id[31] = 0x55, byte(i>>8), byte(i), 1
+		o.SetID(id)
+		fillerBlobs = append(fillerBlobs, blob{addr: oid.NewAddress(uni.Cnr(2), id), data: o.Marshal()})
+	}
+	return fillerBlobs[:n]
+}
+
+func TestC18BatchBoundary(t *testing.T) {
+	rec := ev.New("C18", "batch-boundary")
+	defer rec.Flush()
+	if !ev.Thorough() {
+		rec.Set("skipped", "thorough tier only")
+		return
+	}
+	rapid.Check(t, func(t *rapid.T) {
+		s := genSet(t, genCfg{minN: 2, maxN: 4, cnrs: 1,
+			noTombOnParent: ev.IsOpen("C18", fpTombParent), noExpiredParent: ev.IsOpen("C18", fpExpParent)})
+		rec.Excluded(int64(s.excluded))
+		n := len(s.Members)
+		if n < 2 {
+			rec.Case(false, s.String(), "too-small")
+			return
+		}
+		nf := rapid.SampledFrom([]int{999, 1000, 1001, 1700}).Draw(t, "fillers")
+		rec.Case(s.relatedPair(), s.String(), append(labelsOf(s), fmt.Sprintf("fillers-%d", nf))...)
+		fill := fillers(nf)
+		blobs := blobsOf(s)
+		addrs := s.interest()
+		f := s.facts()
+		perms := sampledPerms(n, 3, rapid.Uint64().Draw(t, "perm-seed"))
+		splits := []int{rapid.IntRange(1, n-1).Draw(t, "split"), rapid.IntRange(0, n).Draw(t, "split2")}
+
+		ep := &stor.Epoch{}
+		dir, db, db2 := openTwo(t, ep)
+		defer os.RemoveAll(dir)
+		defer db.Close()
+		defer db2.Close()
+
+		var base []Obs
+		var baseDesc string
+		for _, p := range perms {
+			for _, k := range splits { // k objects of the set before the fillers, n-k after
+				pb := permuted(blobs, p)
+				order := slices.Concat(pb[:k], fill, pb[k:])
+				ep.Set(uint64(s.Er))
+				if err := db.ResyncFromBlobstor(&orderedStore{blobs: order}, strictErr); err != nil {
+					t.Fatalf("resync failed in blob order %v split at %d with %d fillers: %v\n%s", p, k, nf, err, s.Short())
+				}
+				ep.Set(uint64(s.Eq))
+				v, err := observe(db, addrs)
+				if err != nil {
+					t.Fatalf("observe: %v", err)
+				}
+				normalise(s, f, addrs, v)
+				desc := fmt.Sprintf("order %v, %d fillers after the first %d", p, nf, k)
+				rec.Label("resyncs")
+				if base == nil {
+					base, baseDesc = v, desc
+					continue
+				}
+				if slices.Equal(base, v) {
+					continue
+				}
+				var diff []string
+				tp, onlyTP := s.tombOnParentFamilies(), true
+				xp, onlyXP := s.expiredParentFamilies(), true
+				for i := range addrs {
+					if base[i] != v[i] {
+						diff = append(diff, fmt.Sprintf("%s: %v (%s) vs %v (%s)", fmtAddr(addrs[i]), base[i], baseDesc, v[i], desc))
+						onlyTP = onlyTP && tp[s.famOf(addrs[i])]
+						onlyXP = onlyXP && xp[s.famOf(addrs[i])]
+					}
+				}
+				if onlyTP && rec.Known(fpTombParent) || onlyXP && rec.Known(fpExpParent) {
+					rec.Label("known-finding-hit")
+					return
+				}
+				t.Fatalf("statuses depend on the blob order / batch boundaries:\n  %s\n%s", strings.Join(diff, "\n  "), s.Short())
+			}
+		}
 	})
 }
